@@ -91,6 +91,12 @@ def oracle(run, reqs):
             allowed = 0 if first.where == GAP else 1
         if len(later) > allowed:
             raise Violation('step_started_after_kill', n=len(later), **f)
+        if first.act == sched.KILL and first.where == GAP:
+            # independent of state entries: no step function may be entered after a kill requested between callbacks
+            # (a step in flight may finish its awaits; a process that was not stepping is killed at once)
+            ran = [t for t in programs.TRACE[first.pre['trace_len']:] if t[1] == 'enter' or not first.pre['stepping']]
+            if ran:
+                raise Violation('user_step_ran_after_kill', steps=[t[0] + ':' + t[1] for t in ran][:6], **f)
         if st == S.KILLED:
             text = p.killed_msg()[MESSAGE_TEXT_KEY]
             want = CANCEL_TEXT if first.act == sched.CANCEL else first.txt
